@@ -184,14 +184,16 @@ FAMILIES["frames"] = {
 }
 
 FAMILIES["mapbuild"] = {
-    "anchor": "src/algorithm/map.rs Array::map, the key-insertion / row-removal block of Array::map_args, MapKeys::join; src/algorithm/dyadic/structure.rs Array::remove_row",
+    "anchor": "src/algorithm/map.rs Array::map, the key-insertion / row-removal block of Array::map_args, the renumbering loop of MapKeys::join; src/algorithm/dyadic/structure.rs Array::remove_row",
     "bound": "3-4 scalar keys drawn from 3 values, scalar values",
     "header": "use crate::shim::*;\n",
     "rewrites": (PUBCRATE,),
     "dropped": "R3 error text (format! shim macro); nothing else inside the extracted items; MapKeys::insert is NOT extracted here: the shim implements its contract",
     "groups": [
         {"wrap": "impl MapKeys", "items": [
-            {"kind": "fn", "name": "MapKeys::join", "file": "src/algorithm/map.rs", "impl": r"^impl MapKeys \{", "fn": "join"},
+            {"kind": "range_in_fn", "name": "renumbering loop of MapKeys::join", "file": "src/algorithm/map.rs", "impl": r"^impl MapKeys \{", "fn": "join",
+             "start": r"^[ \t]*(?:let mut descending\b|for &r in &to_remove \{)", "end": r"^[ \t]*Ok\(to_remove\)",
+             "sig": "pub fn join_renumber(&mut self, to_remove: Vec<usize>)"},
         ]},
         {"wrap": "impl<T: ArrayValue> Array<T>", "items": [
             {"kind": "fn", "name": "Array::map", "file": "src/algorithm/map.rs", "impl": r"^impl<T: ArrayValue> Array<T> \{", "fn": "map"},
